@@ -119,6 +119,21 @@ static TableD grid_table(vp::Rng &r) {
     return t;
 }
 
+// a register inside an area that ends exactly at 2^32 lies entirely inside an area: the table is well-formed
+static void top_area_phase() {
+    for (uint32_t topsize : {1u, 2u, 8u, 0x100u}) for (int big = 0; big < 2; big++) for (int withreg = 0; withreg < 2; withreg++) {
+        std::string rep = vp::fmt("top %u %d %d\n", topsize, big, withreg);
+        vp::CaseScope scope([&] { return rep; });
+        TopTable T(topsize, withreg, big);
+        RegisterInit in = register_init(&T.t);
+        vp::count(); vp::cls(withreg ? "top-area:with-register" : "top-area:without-register"); vp::nontrivial(vp::fnv(rep));
+        if (in.code == REG_INIT_SUCCESS) { if (!T.low_invariant()) vp::fail("top-area:defaults", "defaults of the low area not loaded", rep); continue; }
+        if (withreg && in.code == REG_INIT_ENTRY_IN_MEMORY_HOLE && in.pos.entry == 3) {
+            if (vp::excluded("top-area:register-reported-in-hole")) vp::stats().excluded++;
+            else vp::fail("top-area:register-reported-in-hole", vp::fmt("register at %u inside the area [%u, 2^32) is reported as lying in a memory hole", T.areas[1].base, T.areas[1].base), rep);
+        } else vp::fail("top-area:init-refused", vp::fmt("well-formed table with an area ending at 2^32 refused: code %d at %u", (int)in.code, in.pos.entry), rep);
+    }
+}
 static void run() {
     auto &a = vp::args();
     vp::CaseScope scope([] { return ser_case(g_cur); });
@@ -127,6 +142,7 @@ static void run() {
                                "default pushed across its bound / to a non-finite class / against its callback, range limits put in descending order, skip-defaults or write callback toggled, no areas), 1/4 valid tables, 1/4 from the raw grid "
                                "(0-3 areas with bases {0x10,0x14,0x18,0x20} x sizes {1,2,4,8} in any order, 0-3 registers of any type anywhere in 0x0e..0x2b); oracle = rule set of the model with indices, "
                                "post-conditions on storage, area runs and typed access, UNINITIALISED after failure; a third of the cases re-initialise a table object that carries the state of an earlier successful initialisation", n);
+    if (a.shard == 0) top_area_phase();
     vp::Rng rng(a.seed * 12289 + a.shard);
     for (size_t i = 0; i < n && !vp::too_many_failures(); i++) {
         Case c; const char *label = "valid";
@@ -144,6 +160,7 @@ static void run() {
     }
 }
 static bool replay(const std::string &text) {
+    if (text.rfind("top ", 0) == 0) { top_area_phase(); return vp::stats().failures.empty(); }
     Case c; std::vector<std::string> rest;
     if (!rm::parse(text, c.t, rest)) return false;
     for (auto &l : rest) if (l.rfind("reinit 1", 0) == 0) c.reinit = true;
